@@ -298,3 +298,67 @@ def c12(run):
                             n_events=4000 if q else 15000)
     run.assumptions += [BOUNDED, STD_GUARD, "numbers are decimal digit sequences in the specification (exact for "
                         "128-bit types); usize/isize are taken as 64-bit"]
+
+
+# ------------------------------------------------------------------------------------------- C20
+def _concat_cases(run, path, name):
+    import progs
+    ps = progs.ProgSet(run, name)
+    for line in open(path):
+        r = json.loads(line)
+        pieces, sep, mac = r["pieces"], r["sep"], r["mac"]
+        exp = str(list(r["exp"]))
+        if mac == "str_concat":
+            if r["ek"] == "str":
+                body = 'const S: &str = konst::string::str_concat!(&[%s]); format!("{:?}", S.as_bytes())' % ", ".join(progs.rust_str(p) for p in pieces)
+            else:
+                body = 'const S: &str = konst::string::str_concat!(&[%s]); format!("{:?}", S.as_bytes())' % ", ".join(progs.rust_char(p) for p in pieces)
+            if not pieces:
+                body = 'const S: &str = konst::string::str_concat!(&[]); format!("{:?}", S.as_bytes())'
+        elif mac == "from_iter":
+            if r["ek"] == "str":
+                lit = "&[%s]" % ", ".join(progs.rust_str(p) for p in pieces)
+                body = 'const A: &[&str] = %s; const S: &str = konst::string::from_iter!(A, copied()); format!("{:?}", S.as_bytes())' % lit
+            else:
+                lit = "&[%s]" % ", ".join(progs.rust_char(p) for p in pieces)
+                body = 'const A: &[char] = %s; const S: &str = konst::string::from_iter!(A, copied()); format!("{:?}", S.as_bytes())' % lit
+        elif mac == "slice_concat":
+            body = ('const S: &[&[u8]] = &[%s]; const A: [u8; konst::slice::slice_concat!(u8, S).len()] = konst::slice::slice_concat!(u8, S); '
+                    'format!("{:?}", &A[..])' % ", ".join(progs.rust_bytes(p) for p in pieces))
+        elif mac == "str_join":
+            if r["sk"] == "char":
+                try:
+                    if len(bytes(sep).decode()) != 1:
+                        continue
+                except Exception:
+                    continue
+                sp = progs.rust_char(sep)
+            else:
+                sp = progs.rust_str(sep)
+            body = 'const S: &str = konst::string::str_join!(%s, &[%s]); format!("{:?}", S.as_bytes())' % (sp, ", ".join(progs.rust_str(p) for p in pieces))
+        else:
+            continue
+        ps.add(body, exp, r)
+    return ps
+
+
+@check("C20", rule="one case = a constant argument list (0..3 pieces, quick; 0..4 thorough) over {\"\", a, two multi-byte "
+                    "chars, crab} as str or char elements with str/char separators, expanded in a const item; plus one "
+                    "case per byte string over {0,'a',0xFF,0xC3,0xB1} for the CStr functions; non-trivial = at least two "
+                    "pieces or an interior nul")
+def c20(run):
+    q = run.tier == "quick"
+    out1 = vec("C20-CStr.ndjson")
+    run.mc("MC_CStr", "CStr.quick.cfg" if q else "CStr.thorough.cfg", env={"OUT": out1},
+           need_actions=("Scan", "Decide", "Walk"), heap="6g", timeout=3000)
+    out2 = vec("C20-Concat.ndjson")
+    run.mc("MC_Concat", "Concat.quick.cfg" if q else "Concat.thorough.cfg", env={"OUT": out2},
+           need_actions=("Sum", "Fill"), heap="6g", timeout=3000)
+    run.sample_file(out1, k=2)
+    run.sample_file(out2, k=2)
+    run.replay([out1], "CStr vectors")
+    _concat_cases(run, out2, "C20-concat").execute()
+    run.exhaustive = False
+    run.assumptions += [BOUNDED, STD_GUARD, "concatenation programs are generated from the TLC-emitted descriptors; the "
+                        "macros are expanded inside const items, so rustc's const evaluator executes them",
+                        "CStr error kinds are not compared (the property does not mention them)"]
